@@ -12,7 +12,7 @@ sys.path.insert(0, HERE)
 class H:
     def __init__(self, name, module, prop, tier="quick", expect="pass", unwind=None, timeout=600,
                  timeout_thorough=3600, cost=30, bounds="", functions=(), allowed_fail=None,
-                 require_refusal=False, mem_gb=10, mem_gb_thorough=16):
+                 require_refusal=False, mem_gb=10, mem_gb_thorough=16, kani_flags=()):
         self.name, self.module, self.prop, self.tier, self.expect = name, module, prop, tier, expect
         self.unwind, self.timeout, self.timeout_thorough, self.cost = unwind, timeout, timeout_thorough, cost
         self.bounds, self.functions = bounds, list(functions)
@@ -20,6 +20,10 @@ class H:
         # refusals (panics inside the named function), which the property allows
         self.allowed_fail, self.require_refusal = allowed_fail, require_refusal
         self.mem_gb, self.mem_gb_thorough = mem_gb, mem_gb_thorough
+        # extra cargo-kani flags, e.g. ("-Z", "restrict-vtable"): virtual calls resolve only to implementations of
+        # the called trait method (without it CBMC also tries every function of a compatible signature, e.g.
+        # Read::read_exact for a Write::write_all call through Box<dyn ReadWrite>)
+        self.kani_flags = list(kani_flags)
 
     @property
     def qualified(self):
@@ -141,9 +145,10 @@ HAND += [
     # ---- C06 ------------------------------------------------------------------------------------
     H("c06_blocking_short_writes", "c06", "C06", unwind=10, cost=120, timeout=900,
       bounds="2 packets whose frames are 4 and 8 symbolic bytes (Codec::encode replaced by a frame model), transport accepts any k in 1..=len per call (<= 12 calls)",
-      functions=["insim::net::blocking_impl::Framed::write", "std::io::Write::write_all (default method, via Box<dyn ReadWrite>)"]),
+      functions=["insim::net::blocking_impl::Framed::write", "std::io::Write::write_all (default method, via Box<dyn ReadWrite>)"],
+      kani_flags=("-Z", "restrict-vtable")),
     H("c06_twin_must_fail", "c06", "C06", tier="thorough", expect="fail", unwind=10, cost=60,
-      bounds="vacuity twin: claims one transport call per packet; must be refuted"),
+      bounds="vacuity twin: claims one transport call per packet; must be refuted", kani_flags=("-Z", "restrict-vtable")),
     # ---- C17 ------------------------------------------------------------------------------------
     H("c17_pth_image_0", "c17", "C17", unwind=8, cost=30, bounds="PTH image, node count 0, all other bytes symbolic (16 bytes)",
       functions=["insim_pth::Pth::read", "insim_pth::Pth::write"]),
